@@ -653,6 +653,14 @@ def r04_12(prog: Program, rep: Report, urows, pe):
             for y in T.walk(g):
                 if T.is_call_to(y, "builtins.issubclass") and y[2][:1] == (tparam,):
                     class_env[y] = T.contains(y[2][1], lambda z: T.refname(z) == "datetime.timedelta")
+    # (a tuple of sign characters that has been given a name at module level is the tuple)
+    for p, _ret in td_paths:
+        for g, _pol in p.guards():
+            for y in T.walk(g):
+                if y[0] == "ref" and y[1].startswith("typelib.") and y not in class_env:
+                    items = P.flatten_display(prog, y)
+                    if items is not None and all(it[0] == "const" for it in items):
+                        class_env[y] = tuple(it[1] for it in items)
     for w, want in (("-PT1S", "negated"), ("+PT1S", "plain"), ("PT1S", "unsigned")):
         taken = []
         for p, ret in td_paths:
@@ -666,6 +674,15 @@ def r04_12(prog: Program, rep: Report, urows, pe):
             break
         kinds = set()
         for p, ret in taken:
+            # (a returned conditional expression on the sign character is the arm this witness selects)
+            def _pick(y, w=w):
+                if y[0] == "ifexp":
+                    try:
+                        return y[2] if T.ceval(y[1], {val: w, **class_env}) else y[3]
+                    except T.Undecidable:
+                        return None
+                return None
+            ret = T.rewrite(ret, _pick)
             recs = [y for y in T.walk(ret) if is_rec(y)]
             if not recs:
                 kinds.add("unsigned")
@@ -763,9 +780,28 @@ def r04_9(prog: Program, rep: Report):
         for p in P.paths_of(prog, g):
             tests = [(T.refname(gd[2][1]), pol) for gd, pol in p.guards() if T.is_call_to(gd, "builtins.issubclass") and len(gd[2]) == 2 and gd[2][0] == ("param", "td")]
             names = [n for n, _ in tests]
+            # (tests that are conjuncts of a named condition -- `is_moment and issubclass(td, …)` -- are read off the path's atoms:
+            #  a conjunction that failed while its other conjunct is known to hold decides the class test)
+            known = {}
+            for gd, pol in p.guards():
+                if gd[0] == "boolop" and gd[1] == "and" and pol:
+                    for o in gd[2]:
+                        known[o] = True
+                else:
+                    known.setdefault(gd, pol)
+            for gd, pol in p.guards():
+                if gd[0] == "boolop" and gd[1] == "and" and not pol:
+                    rest = [o for o in gd[2] if known.get(o) is not True]
+                    if len(rest) == 1:
+                        known.setdefault(rest[0], False)
+            derived = [(T.refname(a[2][1]), v) for a, v in known.items() if T.is_call_to(a, "builtins.issubclass") and len(a[2]) == 2 and a[2][0] == ("param", "td")]
             if ("datetime.date", True) in tests:
                 seen = True
-                if ("datetime.datetime", False) not in tests[: names.index("datetime.date")]:
+                if ("datetime.datetime", False) not in tests[: names.index("datetime.date")] and ("datetime.datetime", False) not in derived:
+                    ok = False
+            elif ("datetime.date", True) in derived:
+                seen = True
+                if ("datetime.datetime", False) not in derived:
                     ok = False
         rep.check(ok, "R04.9", g.qualname, g.loc, "the date arm is reached only after datetime was excluded (datetime is a date)" if seen else "no explicit date arm (falls through after datetime/time)", "the date test precedes the datetime test: a datetime target is truncated to a date", detail="narrow-first")
 
